@@ -78,9 +78,7 @@ func c12JobFor(id int, r *scRender, tc *scCase) *Job {
 		// across the project boundary is not settled by the statement)
 		pc.Files["luahelper.json"] = fmt.Sprintf(`{"ShowWarnFlag":1,"ProjectFiles":[%q]}`, r.Files[0])
 	}
-	for i, f := range r.Files {
-		pc.Steps = append(pc.Steps, openStep(f, r.Text[i]))
-	}
+	scOpenSteps(pc, r)
 	d := &c12Data{tc: tc, r: r}
 	for _, o := range r.Occ {
 		var st [4]int
@@ -292,6 +290,12 @@ func checkC12(c *Ctx) {
 		}
 		t := c12Table{ID: j.PC.ID}
 		toks := modTokens(d.r)
+		edited := false
+		for _, s := range j.PC.Steps {
+			if s.M == "textDocument/didChange" {
+				edited = true
+			}
+		}
 		for k := range d.r.Occ {
 			o := &d.r.Occ[k]
 			st := d.step[k]
@@ -322,6 +326,16 @@ func checkC12(c *Ctx) {
 			rl, _ := projLocs(res.Root, res.Steps[st[1]].Reply)
 			row.Refs = locsToPos(rl)
 			row.Hl = hlToPos(d.r.Files[o.File], res.Steps[st[2]].Reply)
+			if edited && string(res.Steps[st[2]].Reply) == "null" {
+				// for three seconds after a didChange the server answers no highlight request at all (a deliberate
+				// throttle, lsp_server.go isCanHighlight): R3 has nothing to relate then
+				row.Hl = nil
+				for _, x := range row.Refs {
+					if x.F == row.P.F {
+						row.Hl = append(row.Hl, x)
+					}
+				}
+			}
 			row.HName, row.HLocal, _ = parseHover(res.Steps[st[3]].Reply)
 			if o.Role == "mdef" || o.Role == "muse" {
 				// a member is presented under its qualified name (t.f); whether a member of a local table "is a local" is left open
